@@ -193,6 +193,12 @@ def analyse(ck):
     if okd:
         cs = [c for c in sle_e[0].ctrl if c[0] == "case"]
         okd = len(cs) == 1 and cs[0][1] == ("bin", "Eq", n_log, ("c", 64, None)) and tuple(cs[0][2]) == ("0",)
+        if not okd and len(cs) == 1 and P.norm(cs[0][1]) == n_log and tuple(cs[0][2]) == ("else",) and len(cs[0]) >= 5:
+            # `match n_log { 64 => canonical path, narrow => bit path }`: the otherwise edge of a switch whose only arm is 64
+            sb = ck.prog.bodies.get(cs[0][4])
+            sb = fr.body if (sb is None or fr.body.id == cs[0][4]) else sb
+            tt = sb.blocks[cs[0][3]]["t"] if cs[0][3] < len(sb.blocks) else {}
+            okd = tt.get("k") == "switch" and [a_[0] for a_ in tt.get("arms", [])] == ["64"]
     ob.add({"C10", "C30"}, okd, "DOM", "gadget/lt/split_le-only-below-64", "split_le(right, n_log) is reachable only on the n_log != 64 edge (a 64-bit bit split has the p-alias)", sle_e[0].loc if sle_e else loc,
            [circ.describe_ctrl(c) for e in sle_e for c in e.ctrl])
     from . import lc
@@ -267,29 +273,56 @@ def analyse(ck):
     ob.add({"C30"}, okn, "TERM", "gadget/lt/bit-recurrence",
            "lt = {false, or(lt, and(and(not a_i, b_i), eq))}, eq = {true, and(eq, not(xor(a_i, b_i)))}, a_i = bit i of the constant, b_i = split_le(right, n_log)[i], i over 0..n_log (msb first)", loc, det)
     # ordering: this_lt reads eq BEFORE eq is updated in the same iteration
+    # the ripple step lives in is_const_less_than itself or in a private gadget helper extracted from it
+    inl_ = _gadget_helper_inline(prog)
+    cands = [b] + [prog.bodies.get(t_.get("rid") or t_.get("fid") or "") for _, t_ in b.calls()]
+    cands = [c_ for c_ in cands if c_ is not None and (c_ is b or (inl_(c_.path) and (c_.d.get("vis") or "pub") != "pub"))]
     body = b
+    for c_ in cands:
+        if len([1 for _, t_ in c_.calls() if t_.get("name") == "and" and t_.get("impl_adt") == T.CB]) == 3:
+            body = c_
     ands = [(bb, t) for bb, t in body.calls() if t.get("name") == "and" and t.get("impl_adt") == T.CB]
     ors = [(bb, t) for bb, t in body.calls() if t.get("name") == "or" and t.get("impl_adt") == T.CB]
     okord = False
-    def feeds(local):
-        """name of the user variable a call destination is moved into (directly or itself)"""
-        if body.local_name(local):
-            return body.local_name(local)
+
+    def carried(local):
+        """which accumulator a call result is stored into, by what that variable starts as: "eq" if the variable the value is moved
+        into is also assigned the constant `_true()`, "lt" if `_false()` (independent of the variables' names)"""
+        moves = {}
         for blk in body.blocks:
             for st in blk["s"]:
-                if "d" in st and not st["d"]["p"] and st["r"]["k"] == "use":
-                    a = st["r"]["a"]
-                    pl = a.get("m") or a.get("c")
-                    if pl and pl["l"] == local and not pl["p"] and body.local_name(st["d"]["l"]):
-                        return body.local_name(st["d"]["l"])
-        return None
+                if "d" in st and not st["d"]["p"] and (st.get("r") or {}).get("k") == "use":
+                    pl = st["r"]["a"].get("m") or st["r"]["a"].get("c")
+                    if pl and not pl["p"]:
+                        moves.setdefault(pl["l"], set()).add(st["d"]["l"])
+        fwd, work = {local}, [local]
+        while work:
+            x = work.pop()
+            for y in moves.get(x, ()):
+                if y not in fwd:
+                    fwd.add(y)
+                    work.append(y)
+        inits = set()
+        for bb_, t_ in body.calls():
+            if t_.get("name") in ("_true", "_false") and t_.get("dest") and not t_["dest"]["p"]:
+                d0, seen_ = t_["dest"]["l"], set()
+                st_ = [d0]
+                while st_:
+                    x = st_.pop()
+                    if x in seen_:
+                        continue
+                    seen_.add(x)
+                    st_ += list(moves.get(x, ()))
+                if seen_ & fwd:
+                    inits.add("eq" if t_["name"] == "_true" else "lt")
+        return inits.pop() if len(inits) == 1 else None
 
     if len(ands) == 3 and len(ors) == 1:
-        # the eq update is the `and` whose result becomes the named variable `eq`
-        upd = [bb for bb, t in ands if feeds(t["dest"]["l"]) == "eq"]
-        others = [bb for bb, t in ands if feeds(t["dest"]["l"]) != "eq"]
+        # the eq update is the `and` whose result becomes the accumulator that starts as `_true()`
+        upd = [bb for bb, t in ands if carried(t["dest"]["l"]) == "eq"]
+        others = [bb for bb, t in ands if carried(t["dest"]["l"]) != "eq"]
         okord = len(upd) == 1 and len(others) == 2 and all(cfg.dominates(body, o, upd[0]) and o != upd[0] for o in others) and cfg.dominates(body, ors[0][0], upd[0]) \
-            and feeds(ors[0][1]["dest"]["l"]) == "lt"
+            and carried(ors[0][1]["dest"]["l"]) == "lt"
         # msb-first iteration
     revs = [t for bb, t in body.calls() if t.get("name") == "rev"]
     ob.add({"C30"}, okord and len(revs) == 1, "ORDER", "gadget/lt/eq-updated-last", "within one bit iteration `lt` is updated from the eq of the higher bits before `eq` absorbs the current bit; bits are visited msb first (rev)", loc,
